@@ -234,3 +234,8 @@ func VerifC20_write_failure_is_reported() {
 	c20FailWritesFrom = -1
 	verifReach("C20/failure/end")
 }
+
+// C17 — the same obligation seen as error surfacing: a write to a tee/split/redirect target that
+// fails is reported by the handler (Flush/Close errors are not masked)
+//verif:opts engine-only maxpaths=100000
+func VerifC17_redirect_target_write_failure_is_reported() { VerifC20_write_failure_is_reported() }
